@@ -106,12 +106,16 @@ def slices(tier):
                               maxrestart=1 if th else 0, maxevents=1 if th else 0, restages=(True,))
     # histories
     ev = dict(muthows=HOWS, maxmut=1, maxwrite=1, maxrestart=1, maxagain=1, maxevents=4 if th else 3, restages=(True, False))
-    S["hist-file"] = slice_consts(m1=["copy", "link", "copyout"], l1=["pa", "da"], mutlocs=["pa", "da"], writes=["o", "a"], **ev)
-    S["hist-dir"] = slice_consts(m1=["copy", "link"], l1=["pd", "apd"], mutlocs=["pd", "apd"], writes=["o", "d/a", "d/o"], **ev)
+    deep = dict(ev, maxmut=2, maxrestart=2) if th else ev
+    S["hist-file"] = slice_consts(m1=["copy", "link", "copyout"], l1=["pa", "da"], mutlocs=["pa", "da"], writes=["o", "a"], **deep)
+    S["hist-dir"] = slice_consts(m1=["copy", "link"], l1=["pd", "apd"], mutlocs=["pd", "apd"], writes=["o", "d/a", "d/o"], **deep)
     S["hist-extract"] = slice_consts(m1=["extract"], l1=["pt"], m2=["copy", "link"], l2=["qa", "qd"], lens=(1, 2), mutlocs=["pt", "qa"], writes=["o", "a", "d/o"], **ev)
     S["hist-skip"] = slice_consts(m1=["copy", "link", "ref"] if th else ["copy", "ref"], l1=["sa"], m2=["copy", "link", "copyout"] if th else ["copy", "copyout"],
                                   l2=["pa", "da"], lens=(2,), alt=("none",),
-                                  reps=(False, True), mutlocs=["sa"], writes=["o", "a"], **dict(ev, maxevents=2 if not th else 3))
+                                  reps=(False, True), mutlocs=["sa"], writes=["o", "a"], **dict(ev, maxevents=2))
+    if th:
+        S["hist-skip3"] = slice_consts(m1=["copy", "ref"], l1=["sa"], m2=["copy", "copyout"], l2=["pa", "da"], lens=(2,), alt=("none",),
+                                       mutlocs=["sa"], writes=["o", "a"], **dict(ev, maxevents=3))
     S["hist-tree"] = slice_consts(m1=["copy", "link"], l1=["pp", "pl", "pm"], links=True, mutlocs=["pa", "qa"],
                                   writes=["o", "l", "p/a", "p/l", "p/m"] , **dict(ev, maxagain=0))
     S["hist-two"] = slice_consts(m1=["copy", "link"], l1=["pa", "pd"], m2=["copy", "copyout", "link"], l2=["qa", "qd"], lens=(2,),
@@ -120,7 +124,7 @@ def slices(tier):
     S["migrated"] = slice_consts(mig=True, mutlocs=["pa"], writes=["a"], **dict(ev, maxrestart=2, maxevents=4))
     if th:
         S["hist-glob"] = slice_consts(m1=["copy", "link", "ref"], l1=["pg"], mutlocs=["pa"], writes=["o"], **ev)
-        three_l = ["da", "pa", "qa", "pd", "sa"]
+        three_l = ["da", "pa", "qa", "pd"]
         S["three"] = slice_consts(m1=["copy", "link", "copyout"], l1=three_l, m2=["copy", "link", "copyout"], l2=three_l, m3=["copy", "link", "copyout"], l3=three_l,
                                   lens=(3,), alt=("none",), maxrestart=1, maxevents=1, restages=(True,))
     else:
@@ -152,8 +156,7 @@ def design_consts(tier):
                         maxmut=1, maxwrite=1, maxrestart=1, maxagain=1, maxevents=3 if th else 2, restages=(True, False))
 
 
-def model_check(chk, tier):
-    from concurrent.futures import ThreadPoolExecutor
+def model_jobs(tier):
     base = design_consts(tier)
     tree = slice_consts(m1=["copy", "link"], l1=["pp", "pl", "pm"], links=True, mutlocs=["pa", "qa"], muthows=["mod", "rm"],
                         writes=["o", "l", "p/a", "p/l", "p/m"], maxmut=1, maxwrite=1, maxrestart=1, maxagain=1, maxevents=2, restages=(True, False))
@@ -184,24 +187,59 @@ def model_check(chk, tier):
     # the glob honoured: the promise holds
     jobs.append(("hold", "glob_promise", dict(globc, GlobLiteral="FALSE", **fixed), body(["TypeOK", "GlobHonoured", "StagedIsCurrent"], []), None, False))
 
-    def one(job):
-        kind, name, consts, b, prop, cover = job
-        return job, tlc.run_tlc("DataStaging", cfg(name, consts, b), workers=4, timeout=1500, coverage=cover, expect_violation=prop is not None, specdir=GEN)
-    with ThreadPoolExecutor(max_workers=4) as ex:
-        results = list(ex.map(one, jobs))
+    return jobs
+
+
+def _model_child(conn, tier):
+    """runs in a process of its own (its threads wait for TLC processes) so that the parent stays single-threaded while it forks pools"""
+    from concurrent.futures import ThreadPoolExecutor
+    try:
+        jobs = model_jobs(tier)
+
+        def one(job):
+            kind, name, consts, b, prop, cover = job
+            r = tlc.run_tlc("DataStaging", cfg("mc_" + name, consts, b), workers=4, timeout=1500, coverage=cover, expect_violation=prop is not None, specdir=GEN)
+            if cover:
+                r["coverage"] = action_coverage(r["out"])
+            r["out"] = r["out"][-3000:]
+            return (kind, name, prop, cover), r
+        with ThreadPoolExecutor(max_workers=4) as ex:
+            conn.send(("ok", list(ex.map(one, jobs))))
+    except BaseException as e:      # noqa: reported by the parent
+        conn.send(("error", "%s: %s" % (type(e).__name__, e)))
+    finally:
+        conn.close()
+
+
+def start_model_check(tier):
+    ctx = multiprocessing.get_context("fork")
+    parent, child = ctx.Pipe(duplex=False)
+    pr = ctx.Process(target=_model_child, args=(child, tier))
+    pr.start()
+    child.close()
+    return pr, parent
+
+
+def finish_model_check(chk, handle):
+    pr, conn = handle
+    try:
+        status, results = conn.recv()
+    except EOFError:
+        raise MachineryError("the model-checking process died")
+    pr.join()
+    if status != "ok":
+        raise MachineryError("model checking failed: %s" % results)
     named = []
-    for (kind, name, consts, b, prop, cover), r in results:
+    for (kind, name, prop, cover), r in results:
         if kind == "fail":
             must_fail(chk, r, name, prop)
             named.append(name)
         else:
             must_hold(chk, r, name)
         if cover:
-            cov = action_coverage(r["out"])
             for act in ACTIONS:
-                if not cov.get(act):
-                    raise MachineryError("action %s of DataStaging.tla never taken (vacuous run): %s" % (act, cov))
-            r["coverage"] = cov
+                if not r["coverage"].get(act):
+                    raise MachineryError("action %s of DataStaging.tla never taken (vacuous run): %s" % (act, r["coverage"]))
     chk.cov["expected_counterexamples"] = sorted(named)
 
 
@@ -237,7 +275,7 @@ def _replay_chunk(args):
     world = None
     cur_hd = None
     try:
-        for hd, init, paths in items:
+        for hd, init, sub, leaves in items:
             hk = json.dumps(hd, sort_keys=True)
             if hk != cur_hd:
                 if world is not None:
@@ -245,8 +283,8 @@ def _replay_chunk(args):
                 world = W.World(os.path.join(root, "w%d" % len(results)), hd)
                 cur_hd = hk
             src0 = {l: v for l, v in init["src"].items()}
-            for labels, expected in paths:
-                results.append(replay_one(W, world, hd, src0, labels, expected))
+            for h in leaves:
+                results.append(replay_one(W, world, hd, src0, [list(x) for x in h], [sub[h[:k]] for k in range(1, len(h) + 1)]))
     finally:
         if world is not None:
             world.close()
@@ -309,7 +347,7 @@ def spec_to_code(chk, tier, variant, only=None):
     ctx = multiprocessing.get_context("fork")
     with ctx.Pool(min(12, len(S))) as p:
         emitted = p.map(emit_slice, [(k, dict(v, **fix)) for k, v in S.items()])
-    work = []           # (header, init projection, [(labels, [expected...])])
+    work = []           # units: (header, initial projection, {history prefix: expected projection}, [leaf histories])
     nb = 0
     per_slice = {}
     for name, r, states in emitted:
@@ -322,11 +360,8 @@ def spec_to_code(chk, tier, variant, only=None):
         count = 0
         for hk, lst in by.items():
             hd = lst[0][1]["hd"]
-            # several initial states per header: a behaviour is identified by its initial sources + history.  The history of a state
-            # does not name the initial state, so group by following TLC's emission: states are emitted in BFS order, a state with
-            # history h belongs to the initial state whose behaviour it continues -- recovered from the projection of the sources,
-            # which only Mut / Write change: replaying from each initial state is unambiguous because the initial sources are part
-            # of the key below.
+            # several initial states per header: every emitted state carries its initial sources (i0), a behaviour is identified
+            # by header + initial sources + history
             inits = [st for h, st in lst if not h]
             if not inits:
                 raise MachineryError("slice %s: no initial state emitted for %s" % (name, hk))
@@ -342,33 +377,35 @@ def spec_to_code(chk, tier, variant, only=None):
                     for k in range(len(h)):
                         prefixes.add(h[:k])
                 leaves = sorted(h for h in hs if h not in prefixes and h)
-                paths = []
-                for h in leaves:
-                    exp = []
-                    for k in range(1, len(h) + 1):
-                        if h[:k] not in tr:
-                            raise MachineryError("slice %s: state for history prefix %s was not emitted" % (name, h[:k]))
-                        exp.append(tr[h[:k]])
-                    paths.append(([list(x) for x in h], exp))
-                count += len(paths)
-                if paths:
-                    work.append((hd, st0["s"], paths))
+                # units of <= 200 behaviours (one real experiment each): the leaves + the projections of all their prefixes
+                for u in range(0, len(leaves), 200):
+                    part = leaves[u:u + 200]
+                    sub = {}
+                    for h in part:
+                        for k in range(1, len(h) + 1):
+                            if h[:k] not in tr:
+                                raise MachineryError("slice %s: state for history prefix %s was not emitted" % (name, h[:k]))
+                            sub[h[:k]] = tr[h[:k]]
+                    work.append((hd, st0["s"], sub, part))
+                count += len(leaves)
         per_slice[name] = count
         nb += count
     if nb < (200 if only is None else 1):
         raise MachineryError("only %d behaviours emitted" % nb)
-    # chunks: keep the behaviours of one header together (one real experiment per header), balance by number of behaviours
-    work.sort(key=lambda w: -len(w[2]))
+    # balance the units over the worker processes
+    work.sort(key=lambda w: -len(w[3]))
     nproc = 14
     bins = [[] for _ in range(nproc)]
     load = [0] * nproc
     for w in work:
         j = load.index(min(load))
         bins[j].append(w)
-        load[j] += len(w[2]) + 3
+        load[j] += len(w[3]) + 3
     for b in bins:
         b.sort(key=lambda w: json.dumps(w[0], sort_keys=True))
     chunks = [(b, os.path.join(chk.scratch, "rp_%d" % i)) for i, b in enumerate(bins) if b]
+    del emitted
+    hs = start_hashseed_runs(chk, work)
     with ctx.Pool(len(chunks)) as p:
         res = p.map(_replay_chunk, chunks)
     found = {}
@@ -377,8 +414,9 @@ def spec_to_code(chk, tier, variant, only=None):
     k = 0
     for (b, _root), rs in zip(chunks, res):
         it = iter(rs)
-        for hd, init, paths in b:
-            for labels, _exp in paths:
+        for hd, init, _sub, leaves in b:
+            for h in leaves:
+                labels = [list(x) for x in h]
                 ok, key, what, n, dev = next(it)
                 k += 1
                 chk.evaluated(("behaviour", json.dumps(hd, sort_keys=True), json.dumps(init["src"], sort_keys=True), json.dumps(labels)))
@@ -392,12 +430,82 @@ def spec_to_code(chk, tier, variant, only=None):
                                     "result": "equal after every step"}, limit=6)
                 elif key not in found:
                     found[key] = (what, {"kind": "behaviour", "header": hd, "src": init["src"], "labels": labels})
+    # the same behaviours under other hash seeds: the order of staging (hence who wins a collision) must not depend on it
+    nhs = 0
+    for seed_value, units, rs in finish_hashseed_runs(hs):
+        it = iter(rs)
+        for hd, init, _sub, leaves in units:
+            for h in leaves:
+                ok, key, what, n, dev = next(it)
+                nhs += 1
+                chk.evaluated(("behaviour-hashseed", seed_value, json.dumps(hd, sort_keys=True), json.dumps(init["src"], sort_keys=True), json.dumps(h)))
+                if ok:
+                    chk.trace_validated()
+                else:
+                    key = "hashseed:" + key
+                    if key not in found:
+                        found[key] = ("with PYTHONHASHSEED=%s: %s" % (seed_value, what), {"kind": "behaviour", "hashseed": seed_value, "header": hd, "labels": [list(x) for x in h]})
+    chk.cov["behaviours_replayed_under_other_hash_seeds"] = nhs
     for key in sorted(found):
         chk.violation(key, found[key][0], found[key][1])
     chk.cov["behaviours_replayed"] = nb
     chk.cov["behaviours_per_slice"] = per_slice
     chk.cov["steps_compared"] = steps
     return hits
+
+
+HASH_SEEDS = (1, 4242)
+
+
+def start_hashseed_runs(chk, work):
+    """a sample of the multi-reference behaviours is replayed by fresh interpreters with other values of PYTHONHASHSEED"""
+    import pickle
+    import subprocess
+    import sys
+    multi = [w for w in work if len(w[0]["refs"]) >= 2]
+    if not multi:
+        return []
+    rnd = random.Random(chk.seed)
+    rnd.shuffle(multi)
+    units = []
+    for hd, init, sub, leaves in multi[:160]:
+        part = leaves[:8]
+        units.append((hd, init, {h[:k]: sub[h[:k]] for h in part for k in range(1, len(h) + 1)}, part))
+    units.sort(key=lambda w: json.dumps(w[0], sort_keys=True))
+    out = []
+    for sv in HASH_SEEDS:
+        path = os.path.join(chk.scratch, "hashseed_%d.pkl" % sv)
+        with open(path, "wb") as f:
+            pickle.dump((units, os.path.join(chk.scratch, "hs_%d" % sv)), f)
+        env = dict(os.environ, PYTHONHASHSEED=str(sv), VERIF_NO_REEXEC="1", LOGNAME="%s-hs%d" % (os.environ.get("LOGNAME", "verif"), sv))
+        code = "import sys; sys.path.insert(0, %r); import warnings; warnings.simplefilter('ignore'); from harness.checks import g07; g07._hashseed_main(%r)" % (
+            os.path.dirname(os.path.dirname(os.path.dirname(os.path.abspath(__file__)))), path)
+        out.append((sv, units, path, subprocess.Popen([sys.executable, "-c", code], env=env, stdout=subprocess.PIPE, stderr=subprocess.STDOUT, text=True)))
+    return out
+
+
+def _hashseed_main(path):
+    import pickle
+    with open(path, "rb") as f:
+        units, root = pickle.load(f)
+    rs = _replay_chunk((units, root))
+    with open(path + ".out", "wb") as f:
+        pickle.dump((os.environ.get("PYTHONHASHSEED"), rs), f)
+
+
+def finish_hashseed_runs(hs):
+    import pickle
+    out = []
+    for sv, units, path, proc in hs:
+        txt, _ = proc.communicate(timeout=1200)
+        if proc.returncode != 0 or not os.path.exists(path + ".out"):
+            raise MachineryError("the replay under PYTHONHASHSEED=%s failed:\n%s" % (sv, (txt or "")[-2000:]))
+        with open(path + ".out", "rb") as f:
+            seen, rs = pickle.load(f)
+        if seen != str(sv):
+            raise MachineryError("the interpreter of the hash-seed run reports PYTHONHASHSEED=%s, wanted %s" % (seen, sv))
+        out.append((sv, units, rs))
+    return out
 
 
 # --------------------------------------------------------------------------------------------------------------------------
@@ -463,18 +571,33 @@ def run(tier, only=None):
         chk.cov["variant_of_the_tree"] = {"FixSkip": variant["skip"], "FixRestage": variant["restage"]}
         dev = only is not None                     # development run: the named emission slices and / or "traces" only
         sl = [x for x in (only or []) if x != "traces"]
-        from concurrent.futures import ThreadPoolExecutor
-        with ThreadPoolExecutor(max_workers=1) as bg:
-            # the design model is checked (TLC processes) while the behaviours are emitted and replayed
-            fut = bg.submit(model_check, chk, tier) if not dev else None
+        # the design model is checked by TLC processes (driven from a child process) while the behaviours are emitted and replayed
+        handle = start_model_check(tier) if not dev else None
+        from .. import g07_cli
+        cli = g07_cli.start(chk.scratch, restart=True) if not dev else None      # one end-to-end scenario on the real elaunch.py, in the background
+        try:
             hits = spec_to_code(chk, tier, variant, sl or None) if (not dev or sl) else {}
             t1 = time.time()
-            if fut is not None:
-                fut.result()
+            if handle is not None:
+                finish_model_check(chk, handle)
+        finally:
+            if handle is not None and handle[0].is_alive():
+                handle[0].terminate()
         t2 = time.time()
         if not dev or "traces" in only:
             from .. import g07_traces
             g07_traces.code_to_spec(chk, tier, variant, GEN, cfg)
+        if cli is not None:
+            try:
+                problems = g07_cli.finish(cli)
+            except RuntimeError as e:
+                raise MachineryError("end-to-end scenario: %s" % e)
+            chk.evaluated(("cli", "stage-then-launch + restart without restaging"))
+            for key, what in problems:
+                chk.violation(key, what, {"kind": "cli"})
+            if not problems:
+                chk.trace_validated()
+            chk.cov["end_to_end_elaunch_runs"] = 2
         t3 = time.time()
         chk.cov["phase_wall_s"] = dict(replay=round(t1 - t0, 1), model_after_replay=round(t2 - t1, 1), traces=round(t3 - t2, 1))
         chk.cov["finding_behaviours"] = hits
